@@ -681,6 +681,8 @@ def check_C11(tier, seed):
             ops = [mk("create", snap=bases[base]), mk("create", snap=dict(bases["sentinels"], relative_path=["other/t2.flac"]))]
             for p in r.sample(paths, 3):
                 ops.append(mk("update", t=1, snap=dict(bases["full"], relative_path=[p])))
+                # (a rename onto a path another track holds is refused: the stored row must stay whole)
+                ops.append(mk("set", t=2, f="relative_path", v=[p]))
                 ops.append(mk("set", t=2, f="relative_path", v=[p.replace(".", "-2.", 1) if p.count(".") == 1 else "z/" + p]))
             for v in by_field.get("relative_path", []):
                 ops.append(mk("set", t=1, f="relative_path", v=v))
